@@ -38,6 +38,8 @@ def heap_effects(stmts, eng):
        returns (set of receiver names that are mutated precisely, whole:boolean)"""
     names = set()
     whole = [False]
+    keyed = getattr(eng, "_keyed_sink", None)
+    paths = getattr(eng, "_path_sink", None)
 
     def base_name(e):
         return e.id if isinstance(e, ast.Name) else None
@@ -59,7 +61,10 @@ def heap_effects(stmts, eng):
         def target(self, t):
             if isinstance(t, (ast.Attribute, ast.Subscript)):
                 b = base_name(t.value)
-                if b:
+                ck = t.attr if isinstance(t, ast.Attribute) else (t.slice.value if isinstance(t.slice, ast.Constant) and isinstance(t.slice.value, str) else None)
+                if b and keyed is not None and ck is not None:
+                    keyed.append((b, ck))
+                elif b:
                     names.add(b)
                 else:
                     whole[0] = True
@@ -74,6 +79,8 @@ def heap_effects(stmts, eng):
                     b = base_name(f.value)
                     if b:
                         names.add(b)
+                    elif paths is not None and isinstance(f.value, ast.Attribute) and isinstance(f.value.value, ast.Name):
+                        paths.append((f.value.value.id, f.value.attr))     # mutator on `name.attr`
                     else:
                         whole[0] = True
                 else:
@@ -221,6 +228,12 @@ class Verifier(Engine):
             o.result = val
 
     def check_raise(self, fx, c, exc, st, entry):
+        # an exception of a class that the table places under an unconditionally allowed class needs no solver
+        if not c.raises_ensures and z3.is_int_value(exc.cls):
+            cname = CL.name(exc.cls.as_long())
+            if any(cond.strip() == "True" and CL.is_sub(cname, allowed) for allowed, cond in c.raises.items()):
+                fx.trivial_raises = getattr(fx, "trivial_raises", 0) + 1
+                return
         alts = []
         for cls_name, cond in c.raises.items():
             condz = self.spec_conj([cond], St(dict(entry.env), entry.heap, []), None, fx)[0][1]
@@ -373,7 +386,7 @@ class Verifier(Engine):
         load = ast.fix_missing_locations(ast.copy_location(_as_load(s.target), s.target))
         cur = normT(self.ev(load, ec))
         rhs = normT(self.ev(s.value, ec))
-        if isinstance(s.op, ast.Add) and cur.k == "V" and self.must(st, is_listlike(cur.t)) and not self.must(st, smt.is_kind(cur.t, "tuple")):
+        if isinstance(s.op, ast.Add) and cur.k == "V" and rhs.k in ("V", "lit") and self.must(st, is_listlike(cur.t)) and not self.must(st, smt.is_kind(cur.t, "tuple")):
             raise OutOfSubset("list += (in-place extend) at line %d" % s.lineno)
         val = self.binop(s.op, cur, rhs, ec, s.lineno)
         self.assign_to(s.target, val, ec, s.lineno)
@@ -621,10 +634,34 @@ class Verifier(Engine):
             havocked_v = st.env[n]
             if havocked_v.k == "V":
                 lvs.append(havocked_v.t)
+        self._keyed_sink = []
+        self._path_sink = []
         pnames, whole = heap_effects(node.body, self)
+        keyed = self._keyed_sink
+        apaths = self._path_sink
+        self._keyed_sink = None
+        self._path_sink = None
+        # a keyed write `X[const] = v` / `X.attr = v` whose receiver is stable in the loop is a precise write to that object;
+        # on a receiver that is re-bound in the loop it may hit ANY dict/object, but only at that constant key
+        free_keys = set()
+        for b, ck in keyed:
+            if b in names or b not in st.env:
+                free_keys.add(ck)
+            else:
+                pnames.add(b)
+        # mutators on `name.attr`: a precise write to the object held by that attribute, provided the attribute itself is not
+        # re-assigned in the loop (neither through a stable nor through a re-bound receiver) and `name` is stable
+        path_refs = []
+        for b, at in apaths:
+            if b in names or b not in st.env or at in free_keys or any(kb == b and kk == at for kb, kk in keyed):
+                whole = True
+            else:
+                path_refs.append(V.rv(st.heap.dget(V.rv(toV(st.env[b])), V.s(z3.StringVal(at)))))
         h = st.heap
         refs = None
         if vm:
+            if free_keys:
+                raise OutOfSubset("value mode: keyed write through a re-bound receiver inside a loop (line %d)" % node.lineno)
             na = fresh("alloc", IntS)
             st.assume(na >= h.alloc)
             h.alloc = na
@@ -640,7 +677,33 @@ class Verifier(Engine):
                 opens = opens + (simp(V.rv(t)),)
             st.ghost["_open"] = opens
             st.ghost["_loop_builders"] = tuple(n for n, _ in builder_names)
-        elif whole:
+        elif (free_keys or path_refs) and not whole and all(n not in names and n in st.env for n in pnames):
+            # key-level frame: lists are untouched; the objects named in pnames are arbitrary afterwards; every other
+            # dict/object is unchanged except possibly at the constant keys written through re-bound receivers
+            a = dict(h.a)
+            prefs = [V.rv(toV(st.env[n])) for n in sorted(pnames)] + path_refs
+            from .tr import forall as _forall, closed_at
+            r_ = z3.Int("r!")
+            k_ = z3.Const("k!", V)
+            keyvals = [V.s(z3.StringVal(x)) for x in sorted(free_keys)]
+            for m in ("dhas", "dval"):
+                new = fresh(m, HEAP_SORTS[m])
+                same = z3.And([r_ != pr for pr in prefs] + [k_ != kv for kv in keyvals])
+                st.assume(_forall([r_, k_], z3.Implies(same, new[r_][k_] == h.a[m][r_][k_]), [new[r_][k_]]))
+                a[m] = new
+            for m in ("dlen", "dkey", "didx"):
+                a[m] = fresh(m, HEAP_SORTS[m])
+            for pr in prefs:
+                for m in ("llen", "lel"):
+                    a[m] = z3.Store(a[m], pr, fresh(m + "_at", HEAP_SORTS[m].range()))
+            na = fresh("alloc", IntS)
+            st.assume(na >= h.alloc)
+            h.a, h.alloc = a, na
+            for f in heap_wf_axioms(h):
+                st.assume(f)
+            self.assumptions.add("key-level loop frame: a loop whose only writes through re-bound receivers are at constant keys leaves every "
+                                 "other key of every other object unchanged")
+        elif whole or free_keys:
             a = {n: fresh(n, HEAP_SORTS[n]) for n in HEAP_NAMES}
             na = fresh("alloc", IntS)
             st.assume(na >= h.alloc)
@@ -696,6 +759,14 @@ class Verifier(Engine):
         return stable
 
     def check_invs(self, kind, sp, st, fx, line, pre_loop, extra_bound=None):
+        if sp.get("group") and kind == "inv-pres":
+            # one obligation for the whole invariant (fewer solver calls on functions with many paths)
+            s_eval = St(dict(st.env), st.heap, st.pc, ghost=dict(st.ghost))
+            if extra_bound:
+                s_eval.env.update(extra_bound)
+            fs = [f for _, f in self.spec_conj(sp.get("inv", []), s_eval, fx.entry, fx)]
+            self.emit(fx, kind, line, st, z3.And(fs), note="invariant (all %d clauses)" % len(fs))
+            return
         for text in sp.get("inv", []):
             s_eval = St(dict(st.env), st.heap, st.pc, ghost=dict(st.ghost))
             if extra_bound:
@@ -766,6 +837,14 @@ class Verifier(Engine):
                 else:
                     raise OutOfSubset("loop variable %s changes kind %s -> %s" % (n, k, x.k))
         self.check_invs("inv-pres", sp, s2, fx, line, None, extra_bound)
+        if sp.get("back"):
+            # transition clauses: hold at the end of every iteration (they relate the state at the start of the iteration -
+            # e.g. a `prev_...` variable the code keeps - to the state at its end); never assumed at the loop head
+            s_eval = St(dict(s2.env), s2.heap, s2.pc, ghost=dict(s2.ghost))
+            if extra_bound:
+                s_eval.env.update(extra_bound)
+            fs = self.spec_conj(sp["back"], s_eval, fx.entry, fx)
+            self.emit(fx, "step", line, s2, z3.And([f for _, f in fs]), note="iteration step clauses (%d)" % len(fs))
         if m0 is not None:
             s_eval = St(dict(s2.env), s2.heap, s2.pc)
             if extra_bound:
